@@ -142,6 +142,10 @@ func (r sibRec) String() string {
 // sibPure: calls the interpreter may treat as values rather than actions (no writes, no output).
 var sibPure func(f *types.Func) bool
 
+// sibInline: callees evaluated in place: helpers that exist on one side only (code extracted into a local function
+// has no counterpart to be compared with, so it is compared as part of its caller).
+var sibInline func(f *ssa.Function) bool
+
 func sibTables(fn *ssa.Function, n sibNorm, maxRuns int) (map[string][]sibRec, string) {
 	loops := naturalLoops(fn)
 	sort.Slice(loops, func(i, j int) bool { return loops[i].Header.Index < loops[j].Header.Index })
@@ -164,7 +168,8 @@ func sibTables(fn *ssa.Function, n sibNorm, maxRuns int) (map[string][]sibRec, s
 	out := map[string][]sibRec{}
 	for _, ct := range cuts {
 		mk := func() *e6Interp {
-			return &e6Interp{fn: fn, PureCall: func(f *types.Func) bool { return sibPure != nil && sibPure(f) }, OuterName: func(v ssa.Value) string { return sibOuter(v, 0) }, MaxAtoms: 20}
+			return &e6Interp{fn: fn, PureCall: func(f *types.Func) bool { return sibPure != nil && sibPure(f) },
+				Inline: func(f *ssa.Function) bool { return sibInline != nil && sibInline(f) }, OuterName: func(v ssa.Value) string { return sibOuter(v, 0) }, MaxAtoms: 20}
 		}
 		outs, why := e6Enumerate(mk, ct.b, nil, headers, maxRuns)
 		if why != "" {
